@@ -192,7 +192,8 @@ func genCall(r *vh.Rand) string {
 		case parser.BOOL:
 			args = append(args, r.Pick("true", "false", "true", "false", "TRUE", "1"))
 		case parser.INT:
-			args = append(args, r.Pick("1", "0x1f", "017", "1.5", "1e3", "2i", "0x", "089"))
+			args = append(args, r.Pick("1", "0x1f", "017", "1.5", "1e3", "2i", "0x", "089", "-1", "-0", "+1", "99999999999999999999",
+				"0x7fffffffffffffffffff", "1e999", "9223372036854775808", "00", "1_000", ".5", "1.", "0b1"))
 		default:
 			args = append(args, strLit(r, argFor(r, name, i)))
 		}
@@ -251,8 +252,53 @@ func mutate(r *vh.Rand, s string) string {
 	return string(b)
 }
 
+// genBig: long chains, deep nesting and long negation runs (parser stack growth, recursion in build)
+func genBig(r *vh.Rand) string {
+	n := r.Range(20, 300)
+	if vh.Thorough && r.Chance(1, 4) {
+		n = r.Range(300, 3000)
+	}
+	leaf := func() string {
+		if r.Chance(1, 40) {
+			return r.Pick("v", "x-y", "req_unknown()", `req_path_in("/a")`)
+		}
+		return r.Pick("default_t()", `req_path_in("/a", false)`, `req_method_in("GET")`, `!default_t()`, `req_cip_hash_in("0-99")`)
+	}
+	var b strings.Builder
+	switch r.Intn(5) {
+	case 0, 1: // long chain
+		for i := 0; i < n; i++ {
+			if i > 0 {
+				b.WriteString(r.Pick(" && ", " || ", "&&", "||\n"))
+			}
+			b.WriteString(leaf())
+		}
+	case 2: // deep parentheses, balanced or not
+		closeN := n
+		if r.Chance(1, 6) {
+			closeN = n + r.Range(-2, 2)
+		}
+		b.WriteString(strings.Repeat("(", n) + leaf() + strings.Repeat(")", closeN))
+	case 3: // negation run, with and without parentheses
+		if r.Bool() {
+			b.WriteString(strings.Repeat("!", n) + leaf())
+		} else {
+			b.WriteString(strings.Repeat("!(", n) + leaf() + strings.Repeat(")", n))
+		}
+	default: // right-nested: a && (b || (c && ( … )))
+		for i := 0; i < n; i++ {
+			b.WriteString(leaf() + r.Pick(" && (", " || (", " && !("))
+		}
+		b.WriteString(leaf() + strings.Repeat(")", n))
+	}
+	return b.String()
+}
+
 func gen(r *vh.Rand) string {
 	var s string
+	if r.Chance(1, 60) {
+		return mkop(genBig(r))
+	}
 	switch r.Intn(10) {
 	case 0, 1, 2: // one call, argument focus
 		s = genCall(r)
